@@ -22,7 +22,8 @@ RULE = ("requests: 1..12 disjoint singletons and a-b ranges in any order over 1.
         "count > 1 must raise); port_nr / protocol_nr. judged = contract evaluations; distinct non-trivial = (function, "
         "platform, side, template operator, #parts, has range, port_count, policy, switch)"
         " Round 4: requests spelled with blanks; complete ranges 0-255 / 1-65535 on every run."
-        " Round 5: calls relying on documented defaults; requests a,b,a-b.")
+        " Round 5: calls relying on documented defaults; requests a,b,a-b."
+        " Rounds 6-7: the same request text on both sides.")
 ASSUMPTIONS = ["combinations the API refuses by design raise ValueError and are counted as rejected_as_expected: an eq "
                "template with a range part under port_range=True, a range template with a single port, gt/lt templates, "
                "more than one port per line on NX-OS"]
